@@ -589,7 +589,7 @@ class Runner:
         self.steps.append(f'SSort {r} {self.cres_keys(got)}')
 
     # -- end of a history: flatten / sort / reduction / closure on copies
-    def end(self, r):
+    def end(self, r, light=False):
         if r >= len(self.regs):
             r = 0
         ctx = self.ctx
@@ -641,7 +641,7 @@ class Runner:
         self.steps.append(f'SFlat {c} {self.csnap(snap)}')
         # topological sort of the flattened graph
         self.sort(c, ['q_sort', c])
-        if self.failed or flat.cyclic():
+        if self.failed or light or flat.cyclic():
             if flat.cyclic():
                 ctx.count('end_cyclic')
             return
@@ -692,8 +692,8 @@ class Runner:
                 break
             signal.alarm(20)         # watchdog: an operation that does not end is a failure
             try:
-                if op[0] == 'end':
-                    self.end(op[1])
+                if op[0] in ('end', 'endflat'):
+                    self.end(op[1], light=op[0] == 'endflat')
                 else:
                     self.step(op)
             except Endless:
@@ -783,42 +783,303 @@ def shrink(case, key):
     return cur
 
 
+# ---------------------------------------------------------------- exhaustive streams
+EXH_NESTED = 3          # key of the nested graph object (register 1)
+
+
+def exh_alphabet(plain):
+    '''the operation alphabet of the exhaustive history stream (all on graph 0);
+    'last' = the most recently created graph object'''
+    keys = plain + [EXH_NESTED]
+    ops = [['add_node', 0, k] for k in keys] + [['remove_node', 0, k] for k in keys]
+    ops += [['add_dep', 0, a, b] for a in keys for b in keys if a != b]
+    ops += [['add_dep', 0, 0, 0], ['add_dep', 0, EXH_NESTED, EXH_NESTED]]
+    ops += [['remove_dep', 0, a, b] for a in keys for b in keys if a != b]
+    ops += [['merge', 0, 1], ['plus', 0, 1], ['copy', 0], ['invert', 0], ['graft', 0, EXH_NESTED],
+            ['q_eq', 0, 'last'], ['q_le', 0, 'last'], ['q_le', 'last', 0]]
+    return ops
+
+
+def exh_histories(alphabet, length, prefix, first=None):
+    '''every sequence of exactly `length` operations (optionally with a fixed first one)'''
+    import itertools
+    pools = [alphabet] * length
+    if first is not None and length:
+        pools = [[first]] + [alphabet] * (length - 1)
+    for seq in itertools.product(*pools):
+        nreg = sum(1 for op in prefix if op[0] == 'new')
+        case = [list(op) for op in prefix]
+        for op in seq:
+            op = [nreg - 1 if x == 'last' else x for x in op]
+            case.append(op)
+            if op[0] in ('plus', 'copy', 'invert'):
+                nreg += 1
+        case.append(['endflat', 0])
+        yield case
+
+
+def gen_exhaustive(ctx):
+    '''(cases, description, complete?)'''
+    plain = [0, 2, 4]
+    alphabet = exh_alphabet(plain)
+    prefixes = {'empty': [['new'], ['new']], 'singleton': [['new'], ['new'], ['add_node', 1, 4]]}
+    cases = []
+    if ctx.tier == 'thorough':
+        bound = 3
+        for prefix in prefixes.values():
+            for n in range(bound + 1):
+                cases += exh_histories(alphabet, n, prefix)
+        desc = (f'ALL edit histories of length <= {bound} over {len(alphabet)} operations '
+                f'(3 plain nodes + 1 nested graph, empty and singleton) ending in flatten + sort of a '
+                f'copy: {len(cases)} histories')
+    else:
+        bound = 2
+        for prefix in prefixes.values():
+            for n in range(bound + 1):
+                cases += exh_histories(alphabet, n, prefix)
+        first = alphabet[ctx.rng.randrange(len(alphabet))]
+        variant = sorted(prefixes)[ctx.rng.randrange(2)]
+        cases += exh_histories(alphabet, 3, prefixes[variant], first=first)
+        desc = (f'ALL edit histories of length <= {bound} over {len(alphabet)} operations '
+                f'(3 plain nodes + 1 nested graph, empty and singleton) and all of length 3 starting '
+                f'with {first} on the {variant} nested graph (slice chosen from the seed), each ending '
+                f'in flatten + sort of a copy: {len(cases)} histories')
+    return cases, desc, bound
+
+
+def digraph_pairs(n):
+    return [(a, b) for a in range(n) for b in range(n) if a != b]
+
+
+def digraph_case(n, mask):
+    '''the edit history that builds the loop-free digraph `mask` on n nodes, sorts it and ends
+    with flatten (trivial) / sort / reduction / closure of copies'''
+    case = [['new']] + [['add_node', 0, 2 * i] for i in range(n)]
+    for bit, (a, b) in enumerate(digraph_pairs(n)):
+        if mask >> bit & 1:
+            case.append(['add_dep', 0, 2 * a, 2 * b])
+    return case + [['q_sort', 0], ['end', 0]]
+
+
+def reach_bits(n, adj):
+    r = list(adj)
+    for k in range(n):
+        for i in range(n):
+            if r[i] >> k & 1:
+                r[i] |= r[k]
+    return r
+
+
+def sweep_digraphs(args):
+    '''REAL topological_sort / transitive_reduction / transitive_closure on every loop-free
+    digraph with mask in [lo, hi) on n nodes, against brute force.  Returns
+    (graphs, acyclic masks, failures)'''
+    n, lo, hi = args
+    from valjean.cosette.depgraph import DepGraph
+    plain = [f'v{i}' + '' for i in range(n)]
+    where = {id(p): i for i, p in enumerate(plain)}
+    pairs = digraph_pairs(n)
+    failures, acyclic = [], []
+
+    def edges_of(g):
+        return {(where[id(k)], where[id(v)]) for k, vs in g for v in vs}
+
+    for mask in range(lo, hi):
+        edges = [pairs[bit] for bit in range(len(pairs)) if mask >> bit & 1]
+        adj = [0] * n
+        for a, b in edges:
+            adj[a] |= 1 << b
+        reach = reach_bits(n, adj)
+        cyclic = any(reach[i] >> i & 1 for i in range(n))
+        try:
+            g = DepGraph()
+            for p in plain:
+                g.add_node(p)
+            for a, b in edges:
+                g.add_dependency(plain[a], on=plain[b])
+            try:
+                order = [where[id(x)] for x in g.topological_sort()]
+            except Exception as err:  # noqa
+                order = type(err).__name__
+            what = None
+            if cyclic:
+                if order != 'DepGraphError':
+                    what = ('sort-cyclic', f'cyclic graph sorted as {order}')
+            elif isinstance(order, str):
+                what = ('sort-raises', f'acyclic graph: topological_sort raises {order}')
+            else:
+                at = {x: i for i, x in enumerate(order)}
+                if sorted(order) != list(range(n)):
+                    what = ('sort-nodes', f'topological_sort {order} does not list every node once')
+                elif any(at[b] > at[a] for a, b in edges):
+                    what = ('sort-order', f'topological_sort {order} lists a node before a dependency')
+            if not cyclic and what is None:
+                acyclic.append(mask)
+                red = g.copy().transitive_reduction()
+                want = {(a, b) for a, b in edges
+                        if not any(reach[a] >> c & 1 and reach[c] >> b & 1 for c in range(n))}
+                if edges_of(red) != want or len(red) != n:
+                    what = ('reduction-minimal', f'transitive_reduction gives {sorted(edges_of(red))}, '
+                                                 f'want {sorted(want)}')
+                clo = g.copy().transitive_closure()
+                want = {(a, b) for a in range(n) for b in range(n) if reach[a] >> b & 1}
+                if edges_of(clo) != want or len(clo) != n:
+                    what = ('closure', f'transitive_closure gives {sorted(edges_of(clo))}, '
+                                       f'want {sorted(want)}')
+                if edges_of(g) != set(edges):
+                    what = ('edges', 'reduction / closure of a copy changed the original')
+        except Exception as err:  # noqa
+            what = ('observe-raises', f'raises {type(err).__name__}')
+        if what and len(failures) < 5:
+            failures.append((what[0], f'digraph {sorted(edges)} on {n} nodes: {what[1]}',
+                             digraph_case(n, mask)))
+    return hi - lo, acyclic, failures
+
+
+class Tally:
+    '''context of a worker process: counts only'''
+
+    def __init__(self, tier):
+        self.tier = tier
+        self.dist = {}
+
+    def count(self, key, n=1):
+        self.dist[key] = self.dist.get(key, 0) + n
+
+
+def run_chunk(args):
+    tier, cases = args
+    tally = Tally(tier)
+    out = []
+    for case in cases:
+        runner = Runner(tally, case).run()
+        out.append((runner.steps, runner.failures, runner.nontrivial))
+    return out, tally.dist
+
+
+def run_stream(ctx, pool, cases, items, reported, sample_every):
+    '''implementation + oracle on every case (in the worker pool), failures shrunk and reported'''
+    size = 200
+    chunks = [(ctx.tier, cases[k:k + size]) for k in range(0, len(cases), size)]
+    k = 0
+    for out, dist in pool.imap(run_chunk, chunks):
+        for key, n in dist.items():
+            ctx.count(key, n)
+        for steps, failures, nontrivial in out:
+            case = cases[k]
+            k += 1
+            ctx.case_seen(case, nontrivial, sample_every=sample_every)
+            for what, key in failures:
+                small = case
+                if reported.get(key, 0) < 2:          # shrink the first failures of each kind
+                    small = shrink(case, key)
+                    again = fails_with(small, key)
+                    what = again[0] if again else what
+                reported[key] = reported.get(key, 0) + 1
+                ctx.oracle_failure(f'{what} :: {json.dumps(small)}', small, key=key)
+            ctx.count('steps_compared_with_model', len(steps))
+            items.append((case, steps))
+
+
 def run(ctx):
+    import multiprocessing
     common.import_repo()
-    ctx.rule = ('random edit histories (1-40 operations, 35 % removals, 8 plain nodes + nested graph '
-                'objects incl. empty/singleton ones, up to 7 graph objects alive, queries interleaved) '
-                'ending in flatten / sort / reduction / closure of copies; non-trivial = a removal, '
-                'merge or graft on a graph with >= 2 nodes, or a sort with >= 2 edges, or a nested '
-                'flatten; distinct by op list')
+    thorough = ctx.tier == 'thorough'
     cases = gen_cases(ctx)
+    exh, exh_desc, _ = gen_exhaustive(ctx)
+    # digraphs: implementation vs model on all loop-free digraphs with <= 4 nodes
+    small = [digraph_case(n, mask) for n in range(4) for mask in range(1 << (n * (n - 1)))]
+    nsmall = sum(1 << (n * (n - 1)) for n in range(5))
     items = []
     reported = {}
-    for case in cases:
-        runner = Runner(ctx, case).run()
-        ctx.case_seen(case, runner.nontrivial, sample_every=1999)
-        for what, key in runner.failures:
-            small = case
-            if reported.get(key, 0) < 2:          # shrink the first failures of each kind
-                small = shrink(case, key)
-                again = fails_with(small, key)
-                what = again[0] if again else what
-            reported[key] = reported.get(key, 0) + 1
-            ctx.oracle_failure(f'{what} :: {json.dumps(small)}', small, key=key)
-        ctx.count('steps_compared_with_model', len(runner.steps))
-        items.append((case, runner.steps))
-    shard_size = 100 if ctx.tier == 'quick' else 400
-    shards = []
-    for k in range(0, len(items), shard_size):
-        chunk = items[k:k + shard_size]
-        body = ';\n '.join('[' + ';\n  '.join(steps) + ']' for _, steps in chunk)
-        shards.append('Definition cases : list (list step) :=\n [' + body + '].\n'
-                      'Eval vm_compute in bad_indices (map check_case cases).')
+    import time
+    times = {}
+    t0 = time.time()
+    with multiprocessing.get_context('fork').Pool(common.NPROC) as pool:
+        run_stream(ctx, pool, cases, items, reported, 1999)
+        nrandom = len(items)
+        times['random_impl_s'] = round(time.time() - t0, 1)
+        run_stream(ctx, pool, exh, items, reported, 30011)
+        times['exhaustive_histories_impl_s'] = round(time.time() - t0, 1)
+        run_stream(ctx, pool, small, items, reported, 4001)
+        # 4 nodes: real vs brute force on all 4096; vs model on all (thorough) / on every acyclic
+        # one and every 16th other (quick)
+        acyclic4 = []
+        for done, acyclic, failures in pool.imap(sweep_digraphs,
+                                                 [(4, k, k + 512) for k in range(0, 4096, 512)]):
+            acyclic4 += acyclic
+            for key, what, case in failures:
+                if reported.get(key, 0) < 3:
+                    ctx.oracle_failure(f'{what} :: {json.dumps(case)}', case, key=key)
+                reported[key] = reported.get(key, 0) + 1
+        masks4 = range(4096) if thorough else sorted(set(acyclic4) | set(range(0, 4096, 16)))
+        four = [digraph_case(4, m) for m in masks4]
+        run_stream(ctx, pool, four, items, reported, 4001)
+        # 5 nodes: the real sort / reduction / closure against brute force
+        bits = 20
+        if thorough:
+            lo, hi = 0, 1 << bits
+            desc5 = 'ALL 2^20 loop-free digraphs on 5 nodes'
+        else:
+            width = 1 << 15
+            lo = ctx.rng.randrange(1 << (bits - 15)) * width
+            hi = lo + width
+            desc5 = f'the 2^15 loop-free digraphs on 5 nodes with masks in [{lo}, {hi}) (slice from the seed)'
+        step = 1 << 12
+        acyclic5, swept = [], 0
+        for done, acyclic, failures in pool.imap(sweep_digraphs,
+                                                 [(5, k, min(k + step, hi)) for k in range(lo, hi, step)]):
+            swept += done
+            acyclic5 += acyclic
+            for key, what, case in failures:
+                if reported.get(key, 0) < 3:
+                    ctx.oracle_failure(f'{what} :: {json.dumps(case)}', case, key=key)
+                reported[key] = reported.get(key, 0) + 1
+        ctx.count('digraphs5_swept_real_vs_bruteforce', swept)
+        ctx.count('digraphs5_acyclic', len(acyclic5))
+        # ... and implementation vs model on every acyclic one of them + a stride of the cyclic ones
+        five = [digraph_case(5, m) for m in acyclic5]
+        five += [digraph_case(5, m) for m in range(lo, hi, 211)]
+        times['digraph_sweep_impl_s'] = round(time.time() - t0, 1)
+        run_stream(ctx, pool, five, items, reported, 9973)
+    times['all_impl_s'] = round(time.time() - t0, 1)
+    ctx.evaluations += swept
+    ctx.rule = ('three streams. (1) random edit histories (1-40 operations, 35 % removals, 8 plain nodes + '
+                'nested graph objects incl. empty/singleton ones, up to 7 graph objects alive, queries '
+                'interleaved) ending in flatten / sort / reduction / closure of copies. (2) EXHAUSTIVE: '
+                + exh_desc + '. (3) EXHAUSTIVE: real topological_sort / transitive_reduction / '
+                f'transitive_closure vs brute force on ALL {nsmall} loop-free digraphs with <= 4 nodes, vs model '
+                f'on {len(small) + len(four)} of them (all with <= 3 nodes; 4 nodes: '
+                + ('all' if thorough else 'every acyclic one and every 16th other')
+                + f'); vs brute force on {desc5}, vs model on every acyclic one of them and '
+                'every 211th other. non-trivial = a removal, merge or graft on a graph with >= 2 nodes, '
+                'or a sort with >= 2 edges, or a nested flatten; distinct by op list')
+    ctx.extra['exhaustive'] = True
+    ctx.extra['exhaustive_bounds'] = {
+        'edit_histories': exh_desc, 'edit_histories_enumerated': len(exh),
+        'digraphs_le4_real_vs_bruteforce': nsmall, 'digraphs_le4_real_vs_model': len(small) + len(four),
+        'digraphs_le4_model_complete': thorough,
+        'digraphs5_real_vs_bruteforce': swept, 'digraphs5_complete': thorough,
+        'digraphs5_real_vs_model': len(five)}
+    # model side: long random histories in small shards, the short exhaustive ones in big shards
+    groups = [(0, nrandom, 100 if not thorough else 400), (nrandom, len(items), 400)]
+    shards, owner = [], []
+    for start, stop, size in groups:
+        for k in range(start, stop, size):
+            chunk = items[k:min(k + size, stop)]
+            body = ';\n '.join('[' + ';\n  '.join(steps) + ']' for _, steps in chunk)
+            shards.append('Definition cases : list (list step) :=\n [' + body + '].\n'
+                          'Eval vm_compute in bad_indices (map check_case cases).')
+            owner.append(k)
     outs = common.coq_eval(ctx.pid, IMPORTS, shards)
-    for k, out in enumerate(outs):
+    for k, out in zip(owner, outs):
         for i in common.parse_nat_list(out):
-            case, steps = items[k * shard_size + i]
+            case, steps = items[k + i]
             ctx.mismatch(f'history of {len(case)} operations: the model does not reproduce what the '
                          f'implementation reported', case)
+    times['with_model_s'] = round(time.time() - t0, 1)
+    ctx.extra['model_shards'] = len(shards)
+    ctx.extra['cumulative_wall_s'] = times
     ctx.assumptions = ['nodes are identified by object identity (id()); distinct-but-equal plain '
                        'objects are outside the model',
                        'python sets / dicts of the reference are the ground truth of the oracle',
